@@ -59,6 +59,10 @@ var stdAssumptions = []string{
 	"seeded sampling, not enumeration: a clean batch is evidence, not proof",
 }
 
+var isisAssumptions = []string{
+	"IS-IS: scripted neighbours and the decoding of what the DUT sends use bio-rd's own protocols/isis/packet (the codec is not the subject of C31-C33); simulated time is the package's mock clock, moved in steps of at most one second",
+}
+
 var props = map[string]propInfo{
 	"C01": {Engine: "bgp", Quick: 4000, Thorough: 150000, BatchSize: 50},
 	"C02": {Engine: "bgp", Quick: 60000, Thorough: 2000000, BatchSize: 1000},
@@ -80,14 +84,19 @@ var props = map[string]propInfo{
 	"C23": {Engine: "bgp", Quick: 8000, Thorough: 240000},
 	"C24": {Engine: "bgp", Quick: 6000, Thorough: 180000},
 	"C25": {Engine: "bgp", Quick: 6000, Thorough: 180000},
-	"C26": {Engine: "bgp", Quick: 1200, Thorough: 60000, BatchSize: 10, Race: true, PerRunTimeout: 60 * time.Second},
+	"C26": {Engine: "bgp", Quick: 1200, Thorough: 60000, BatchSize: 10, Race: true, PerRunTimeout: 60 * time.Second, Assumptions: []string{
+		"race build: the Go runtime randomises goroutine wake-ups under -race, so a seed fixes the plan and the yields but not the exact interleaving (determinism and replay rates are measured, see DESIGN.md 12.5); the detector only judges accesses that were executed",
+	}},
 	"C27": {Engine: "bgp", Quick: 20000, Thorough: 600000, BatchSize: 250},
 	"C28": {Engine: "bgp", Quick: 20000, Thorough: 600000, BatchSize: 250},
 	"C29": {Engine: "bgp", Quick: 40000, Thorough: 1200000, BatchSize: 500},
-	"C31": {Engine: "bgp", Quick: 12000, Thorough: 400000, BatchSize: 150},
-	"C32": {Engine: "bgp", Quick: 8000, Thorough: 250000, BatchSize: 100},
-	"C33": {Engine: "bgp", Quick: 12000, Thorough: 400000, BatchSize: 150},
-	"C36": {Engine: "cfg", Quick: 3000, Thorough: 90000, BatchSize: 50},
+	"C31": {Engine: "bgp", Quick: 12000, Thorough: 400000, BatchSize: 150, Assumptions: isisAssumptions},
+	"C32": {Engine: "bgp", Quick: 8000, Thorough: 250000, BatchSize: 100, Assumptions: isisAssumptions},
+	"C33": {Engine: "bgp", Quick: 12000, Thorough: 400000, BatchSize: 150, Assumptions: isisAssumptions},
+	"C36": {Engine: "cfg", Quick: 3000, Thorough: 90000, BatchSize: 50, Assumptions: []string{
+		"policies are compared through their effect on the routes the scripted neighbours announce (three prefixes each), not structurally",
+		"every neighbour keeps its AS number across configurations; routing instances (VRFs) other than the default one are not generated",
+	}},
 }
 
 type violation struct {
@@ -143,6 +152,36 @@ func repoDir() string {
 		return d
 	}
 	return "/repo"
+}
+
+// componentsOf lists which bio-rd code a property's simulation runs for real and what is stubbed.
+func componentsOf(prop string, real bool) []string {
+	switch prop {
+	case "C01", "C02", "C04", "C29":
+		if real {
+			return []string{"routingtable (RoutingTable, ClientManager)", "routingtable/locRIB", "routingtable/adjRIBOut", "routingtable/mergedlocrib", "route", "net"}
+		}
+		return []string{"callers of the table API (harness tasks)", "recording clients", "risclient gRPC stream (direct calls on its Client interface)"}
+	case "C27", "C28":
+		if real {
+			return []string{"protocols/bgp/server (BMP Router.serve, neighbor manager, pseudo FSMs)", "protocols/bmp/packet", "protocols/bgp/packet", "routingtable/**", "route", "net"}
+		}
+		return []string{"monitored router (scripted BMP byte streams)", "TCP connection (simulated net.Conn)", "BMPReceiver accept/dial loop (not exercised)"}
+	case "C31", "C32", "C33":
+		if real {
+			return []string{"protocols/isis/server", "protocols/isis/packet (also used by the scripted neighbours)", "benbjohnson/clock mock clock (moved by the plan)"}
+		}
+		return []string{"ethernet interfaces (simulated, via SetEthernetInterfaceFactory)", "device updater (link events from the plan)", "IS-IS neighbours (scripted)", "hostname"}
+	case "C36":
+		if real {
+			return []string{"cmd/bio-rd (loadConfig, bgpConfigurator)", "cmd/bio-rd/config (YAML loader)", "protocols/bgp/server", "protocols/bgp/packet", "routingtable/**", "route", "net"}
+		}
+		return []string{"configuration file contents (generated YAML written to a temp file)", "kernel TCP (simulated)", "BGP neighbours (scripted peers with independent codec)", "device server, gRPC, IS-IS part of the daemon (not started)"}
+	}
+	if real {
+		return []string{"protocols/bgp/server", "protocols/bgp/packet", "routingtable/**", "route", "net", "util/refcounter"}
+	}
+	return []string{"kernel TCP (simulated net.Conn + listener manager + Dial seam)", "BGP neighbours (scripted peers with independent codec)", "logging sink", "gRPC/prometheus (not started)"}
 }
 
 func replayDir() string {
@@ -862,8 +901,8 @@ func main() {
 			"inconclusive":              inconclusive,
 			"known_findings_hit":        knownHit,
 			"reported_assertions":       reported,
-			"real_components":           []string{"protocols/bgp/server", "protocols/bgp/packet", "routingtable/**", "route", "net", "util/refcounter"},
-			"stub_components":           []string{"kernel TCP (simulated net.Conn + listener manager)", "BGP neighbours (scripted peers with independent codec)", "logging sink", "gRPC/prometheus (not started)"},
+			"real_components":           componentsOf(prop, true),
+			"stub_components":           componentsOf(prop, false),
 			"seeds":                     fmt.Sprintf("VERIF_SEED=%d, run indices 0..%d", seed, launched-1),
 		}
 		ev := map[string]any{
@@ -988,6 +1027,9 @@ func reportViolation(bin, work, prop, assertion string, l outLine, v violation, 
 		budget := "300"
 		if tier == "thorough" {
 			budget = "1200"
+		}
+		if props[prop].Race {
+			budget = "90" // every candidate is a child process with up to three attempts
 		}
 		if sl, _ := replayOnce(bin, work, tmp, "-shrink", assertion, "-budget", budget); sl != nil && sl.Result != nil {
 			if nv, ok := hasAssertion(sl.Result, assertion); ok {
